@@ -5,7 +5,7 @@ import numpy as np
 
 from symtt.core import unchanged_inputs, scenario, HarnessError, SkipTV
 from symtt import dense as D
-from .common import mk_cores, meta_ok
+from .common import spec_sorted, mk_cores, meta_ok
 from .C15 import _funcs, _dense
 
 META = {
@@ -270,8 +270,8 @@ def reduced_matrix(ctx, r, m, nx, scale=None):
                       detail='%d kept, spectrum %s' % (len(s), (svx / svx[0]).tolist()))
         K = np.linalg.pinv(Lx.T, rcond=1e-3) @ Ly.T          # r x r
         # M is similar to K restricted to the kept subspace: compare eigenvalues
-        ctx.eq('reduced matrix has the eigenvalues of pinv(Psi_x^T) Psi_y^T', np.sort_complex(np.linalg.eigvals(np.asarray(M)))[-len(s):],
-               np.sort_complex(np.linalg.eigvals(K))[-len(s):], tol=1e-6)
+        ctx.eq('reduced matrix has the eigenvalues of pinv(Psi_x^T) Psi_y^T', spec_sorted(np.linalg.eigvals(np.asarray(M)))[-len(s):],
+               spec_sorted(np.linalg.eigvals(K))[-len(s):], tol=1e-6)
         return
 
     def body():
